@@ -185,6 +185,16 @@ def shard_plays(ctx, payload):
             ctx.label('play-number-bibs')
 
 
+def shard_multiway(ctx, payload):
+    import random
+    n = payload
+    rng = random.Random(derive_seed(ctx.seed, 'C02-multiway', ctx.shard))
+    on_call = make_on_call(ctx)
+    for i in range(n):
+        hjplay.multiway_jumpoff_play(rng.randrange, on_call, noise=10 if i % 2 else 0, tail=25, entries=(i % 3 == 0))
+        ctx.label('play-multiway-jumpoff')
+
+
 def make_machine(ctx):
     on_call = make_on_call(ctx)
 
@@ -262,4 +272,5 @@ def run(ctx):
     ctx.extra['bfs_plan'] = ['n=%d depth=%d regular_heights<=%d' % p for p in plan]
     run_shards(ctx, 'checks.c02', 'shard_bfs', payloads, disjoint=False)
     run_shards(ctx, 'checks.c02', 'shard_plays', [15000 if thorough else 1000] * 16, disjoint=False)
+    run_shards(ctx, 'checks.c02', 'shard_multiway', [3000 if thorough else 250] * 16, disjoint=False)
     run_shards(ctx, 'checks.c02', 'shard_machine', [(1500 if thorough else 60, 12)] * 16, disjoint=False)
